@@ -1040,8 +1040,12 @@ func smallScope(c *Ctx) {
 			rec(version, alphabet, append(append([]vStep{}, prefix...), s), depth-1)
 		}
 	}
-	rec("v1beta1", betaAlpha, nil, 3)
-	rec("v1alpha1", alphaAlpha, nil, 3)
+	depth := 3
+	if c.Thorough() {
+		depth = 4
+	}
+	rec("v1beta1", betaAlpha, nil, depth)
+	rec("v1alpha1", alphaAlpha, nil, depth)
 }
 
 var vRawBodies = []string{
